@@ -799,7 +799,7 @@ func TestVerifC14(t *testing.T) {
 	defer mem.Close()
 	mem.SetMaxOpenConns(1)
 
-	n := vfScale(2500, 120000)
+	n := vfScale(2500, 600000)
 	var ops, impl []string
 	var filterOps, filterImpl []string
 	type evalItem struct{ text, first string }
@@ -935,7 +935,7 @@ func TestVerifC14(t *testing.T) {
 	}
 
 	// one statement TEXT holding several statements (the driver executes them all)
-	multi := vfScale(300, 12000)
+	multi := vfScale(300, 60000)
 	for i := 0; i < multi+3; i++ {
 		g := &c14Gen{r: r, forms: map[string]bool{}}
 		var parts []string
@@ -1003,7 +1003,7 @@ func TestVerifC14(t *testing.T) {
 	rep.vfCompareSegments("rewrite", c14Chunks(filterOps, 400), c14Chunks(filterImpl, 400))
 
 	// meaning A: time-only closed statements evaluate like the original at the pinned instant
-	eq := vfScale(120, 3000)
+	eq := vfScale(120, 10000)
 	for i := 0; i < eq; i++ {
 		g := &c14Gen{r: r, forms: map[string]bool{}, closed: true, timeOnly: true}
 		text := "SELECT " + g.exprs(1+g.r.Intn(2), 1)
